@@ -639,7 +639,7 @@ class State:
     CORR_CASE_TYPE = "Corr.state_case"
     CORR_CHECK = "Corr.check_state"
     CORR_SHOW = "Corr.show_state"
-    SHARD = 8
+    SHARD = 5
     IMPL_TIMEOUT = 240
     RULE = ("sequences of 2-4 dcmstack invocations in one process over 1-2 generated directories (1-3 series of 1-3 slices x 1-2 "
             "time points, 2x2 pixels): -e/-i lists, --embed-meta/--dump-meta, --voxel-order, --time-var with and without an order "
@@ -786,8 +786,12 @@ class State:
                 obs['api_cmp'] = State._compare_api(o, obs, mine, api, api_err)
                 _clean(out_dirs)
                 # --- oracle material 2: the same invocation run first in a fresh interpreter
-                fr = _fresh(d, o, out_dirs)
-                obs['fresh_cmp'] = State._compare_fresh(obs, mine, fr)
+                # (from the second invocation of the sequence on: the first has no history inside this case)
+                if k >= 1:
+                    fr = _fresh(d, o, out_dirs)
+                    obs['fresh_cmp'] = State._compare_fresh(obs, mine, fr)
+                else:
+                    obs['fresh_cmp'] = None
                 _clean(out_dirs)
                 obs['pristine'] = [pristine[0], pristine[1]]
                 del obs['writes']
